@@ -324,7 +324,7 @@ func runC05(w *World, r *Report) {
 	if c, ok := w.Pkg("spice").Pkg.Scope().Lookup("MaxAmountPerSupplementaryCurrency").(*types.Const); ok {
 		K, _ = constant.Int64Val(c.Val())
 	}
-	r.rule("carry-normalised", "every addition into a SupplementaryCurrency field is followed, before success is reported, by a comparison of that field with 10^18 (the carry step)", 3)
+	r.rule("carry-normalised", "every addition into a SupplementaryCurrency field is followed, before success is reported, by a comparison of that field with 10^18 (the carry step)", 2)
 	for _, spec := range [][2]string{{"Melange", "Supply"}, {"", "Transfer"}} {
 		f := w.fx(r, "spice", spec[0], spec[1])
 		if f == nil {
@@ -354,15 +354,15 @@ func runC05(w *World, r *Report) {
 				}
 			}
 			escapes := 0
-			walkFrom(st, nil, nil, func(x ssa.Instruction) bool {
+			dw := newDeepWalk(func(x ssa.Instruction, fr *frame) bool {
 				if iff, ok := x.(*ssa.If); ok {
 					if c, ok := iff.Cond.(*ssa.BinOp); ok {
-						if k, isK := intConst(c.Y); isK && k == K && pathOf(c.X) == p {
+						if k, isK := intConst(c.Y); isK && k == K && fr.cx.res(c.X) == p {
 							return true
 						}
 					}
 				}
-				if ret, ok := x.(*ssa.Return); ok {
+				if ret, ok := x.(*ssa.Return); ok && fr.top() {
 					if successReturn(ret) {
 						escapes++
 					}
@@ -370,78 +370,81 @@ func runC05(w *World, r *Report) {
 				}
 				return false
 			})
+			dw.run(topFrame(f.fn), st.Block(), indexIn(st.Block(), st)+1)
 			r.check(escapes == 0, "carry-normalised", spec[1]+"/"+p, lineOf(w, st), "the sum is compared with 10^18 before the operation can succeed", fmt.Sprintf("%d success paths skip the carry step", escapes))
 		})
 	}
 
 	// ---- the carry never wraps the currency
-	r.rule("carry-increment-guarded", "every currency increment by one (the carry) is immediately guarded: the nearest dominating test of that same field against 2^64-1 has its fail edge leading to an error return, and the field is not written between the test and the increment", 3)
+	r.rule("carry-increment-guarded", "every currency increment by one (the carry) is immediately guarded: the nearest dominating test of that same field against 2^64-1 has its fail edge leading to an error return, and the field is not written between the test and the increment", 2)
 	for _, spec := range [][2]string{{"Melange", "Supply"}, {"", "Transfer"}} {
 		f := w.fx(r, "spice", spec[0], spec[1])
 		if f == nil {
 			continue
 		}
-		fn := f.fn
-		instrsOf(fn, func(in ssa.Instruction) {
-			st, ok := in.(*ssa.Store)
-			if !ok {
-				return
-			}
-			fa, ok := st.Addr.(*ssa.FieldAddr)
-			if !ok || fieldName(fa.X.Type(), fa.Field) != "Currency" {
-				return
-			}
-			bo, ok := st.Val.(*ssa.BinOp)
-			if !ok || bo.Op != token.ADD {
-				return
-			}
-			if k, isK := intConst(bo.Y); !isK || k != 1 {
-				return
-			}
-			p := pathOf(st.Addr)
-			// guard edges: load(p) == MaxUint64 is FALSE
-			var guardLoads []ssa.Value
-			guards := edgesWhere(fn, func(ft fact) bool {
-				if ft.kind != fNeq {
-					return false
+		// the increment may sit in a helper of the operation (a shared carry step): it is checked where it lives
+		for _, fn := range withHelpers(f.fn, deepDepth) {
+			instrsOf(fn, func(in ssa.Instruction) {
+				st, ok := in.(*ssa.Store)
+				if !ok {
+					return
 				}
-				for _, pr := range [][2]ssa.Value{{ft.x, ft.y}, {ft.y, ft.x}} {
-					if c, isC := pr[1].(*ssa.Const); isC && c.Value != nil && c.Value.ExactString() == "18446744073709551615" && pathOf(pr[0]) == p {
-						guardLoads = append(guardLoads, pr[0])
-						return true
+				fa, ok := st.Addr.(*ssa.FieldAddr)
+				if !ok || fieldName(fa.X.Type(), fa.Field) != "Currency" {
+					return
+				}
+				bo, ok := st.Val.(*ssa.BinOp)
+				if !ok || bo.Op != token.ADD {
+					return
+				}
+				if k, isK := intConst(bo.Y); !isK || k != 1 {
+					return
+				}
+				p := pathOf(st.Addr)
+				// guard edges: load(p) == MaxUint64 is FALSE
+				var guardLoads []ssa.Value
+				guards := edgesWhere(fn, func(ft fact) bool {
+					if ft.kind != fNeq {
+						return false
 					}
-				}
-				return false
-			})
-			ok2 := false
-			why := "no test of " + p + " against 2^64-1 dominates the increment"
-			for _, ge := range guards {
-				// the guard edge must lead straight to the increment: no store to p on any path from the edge to st,
-				// and the increment's block is reachable only through a guard edge
-				if !mustCross(fn, st.Block(), guards) {
-					continue
-				}
-				dirty := false
-				walkFrom(nil, ge.To(), nil, func(x ssa.Instruction) bool {
-					if x == ssa.Instruction(st) {
-						return true
-					}
-					if s2, isSt := x.(*ssa.Store); isSt && pathOf(s2.Addr) == p && s2 != st {
-						// a store to the field before reaching the increment?
-						if reachable([]*ssa.BasicBlock{s2.Block()}, nil)[st.Block()] {
-							dirty = true
+					for _, pr := range [][2]ssa.Value{{ft.x, ft.y}, {ft.y, ft.x}} {
+						if c, isC := pr[1].(*ssa.Const); isC && c.Value != nil && c.Value.ExactString() == "18446744073709551615" && pathOf(pr[0]) == p {
+							guardLoads = append(guardLoads, pr[0])
+							return true
 						}
 					}
 					return false
 				})
-				if dirty {
-					why = "the field is written between its overflow test and the increment (stale test)"
-					continue
+				ok2 := false
+				why := "no test of " + p + " against 2^64-1 dominates the increment"
+				for _, ge := range guards {
+					// the guard edge must lead straight to the increment: no store to p on any path from the edge to st,
+					// and the increment's block is reachable only through a guard edge
+					if !mustCross(fn, st.Block(), guards) {
+						continue
+					}
+					dirty := false
+					walkFrom(nil, ge.To(), nil, func(x ssa.Instruction) bool {
+						if x == ssa.Instruction(st) {
+							return true
+						}
+						if s2, isSt := x.(*ssa.Store); isSt && pathOf(s2.Addr) == p && s2 != st {
+							// a store to the field before reaching the increment?
+							if reachable([]*ssa.BasicBlock{s2.Block()}, nil)[st.Block()] {
+								dirty = true
+							}
+						}
+						return false
+					})
+					if dirty {
+						why = "the field is written between its overflow test and the increment (stale test)"
+						continue
+					}
+					ok2 = true
 				}
-				ok2 = true
-			}
-			r.check(ok2, "carry-increment-guarded", spec[1]+"/"+p+"+=1", lineOf(w, st), "the carry into "+p+" cannot wrap", why)
-		})
+				r.check(ok2, "carry-increment-guarded", spec[1]+"/"+p+"+=1", lineOf(w, st), "the carry into "+p+" cannot wrap", why)
+			})
+		}
 	}
 
 	// ---- Drain delegates correctly
